@@ -1,6 +1,10 @@
-(* C02 — Solvency: no negative balances.  Property theorems only. *)
+(* C02 — Solvency: no negative balances.  Property theorems only.
+   Proved for every operation sequence: 0 <= hold <= balance, 0 <= borrowed (hence available >= 0), refused updates
+   keep the state, and borrowed = summed principal of the open loans (LedgerProofs.v, over the primitive
+   transactions of Structure.v). *)
 From Coq Require Import ZArith QArith List.
-From Basana Require Import Num.DecQ Exchange.Model Exchange.AcctProofs Exchange.StepProofs Exchange.OpProofs.
+From Basana Require Import Num.DecQ Exchange.Model Exchange.AcctProofs Exchange.StepProofs Exchange.OpProofs
+     Exchange.Prims Exchange.Structure Exchange.LedgerProofs.
 Import ListNotations.
 Open Scope Q_scope.
 
@@ -34,6 +38,19 @@ Theorem C02_refused_update_keeps_state : forall c s db dh dbo s1 e,
 Proof. exact Basana.Exchange.OpProofs.upd_acct_fail. Qed.
 Print Assumptions C02_refused_update_keeps_state.
 
+(* borrowed always equals the summed principal of the open loans, per symbol, whatever was created, repaid (also by
+   auto-repay), cancelled (auto-borrow roll-back) or rejected on the way *)
+Theorem C02_borrowed_is_open_principal : forall c initial ops x,
+  cfg_ok c -> ops_ok ops -> (forall kv, In kv initial -> 0 <= snd kv) ->
+  let s := run c (init_st initial) ops in vget (bor (s_acct s)) x == lsum x s.
+Proof. exact loans_reachable. Qed.
+Print Assumptions C02_borrowed_is_open_principal.
+
+Theorem C02_primitive_transactions_keep_borrowed_eq_loans : forall c s s',
+  WF s -> loans_inv s -> prim c s s' -> loans_inv s'.
+Proof. exact loans_prim. Qed.
+Print Assumptions C02_primitive_transactions_keep_borrowed_eq_loans.
+
 Example C02_nonvacuous :
   let c := mkCfg [(1%positive, 2%nat); (2%positive, 2%nat)] [] None NoFee InfLiq NoLoans in
   let s := run c (init_st [(2%positive, 1000)])
@@ -42,3 +59,12 @@ Example C02_nonvacuous :
                 OBar (1%positive, 2%positive) 120%Z (mkBar 101 101 101 101 10)] in
   Qeq_bool (vget (bal (s_acct s)) 1%positive) 2 = true /\ Qeq_bool (vget (bal (s_acct s)) 2%positive) 798 = true.
 Proof. vm_compute. split; reflexivity. Qed.
+
+Example C02_loans_nonvacuous :
+  let k := mkCond 2%positive 10 0%Z 0 (1 # 2) in
+  let c := mkCfg [(1%positive, 2%nat); (2%positive, 2%nat)] [] None NoFee InfLiq (Margin 2%positive (Some k) []) in
+  let p := (1%positive, 2%positive) in
+  let ops := [OBar p 60%Z (mkBar 100 100 100 100 10); OLoan 2%positive 50; OLoan 2%positive 30; ORepay 0%nat] in
+  let s := run c (init_st [(2%positive, 1000)]) ops in
+  cfg_ok c /\ ops_ok ops /\ Qeq_bool (lsum 2%positive s) 30 = true /\ Qeq_bool (vget (bor (s_acct s)) 2%positive) 30 = true.
+Proof. cbv zeta. split; [exact I|]. split; [repeat constructor; cbn; discriminate|]. vm_compute. split; reflexivity. Qed.
